@@ -62,7 +62,7 @@ def _note_array(rows, units="beat"):
                     dtype=[("onset_" + units, "f4"), ("duration_" + units, "f4"), ("pitch", "i4")])
 
 
-def make_voices(pitches, mono, dmin=0, dmax=2, omax=2):
+def make_voices(pitches, mono, dmin=0, dmax=2, omax=2, pin_onsets=None):
     """estimate_voices on n notes with concrete pitches and symbolic onset / duration (small integer grids, realised:
     VoSA is a numeric kernel on numpy arrays, the solver enumerates the grid)."""
     n = len(pitches)
@@ -79,6 +79,8 @@ def make_voices(pitches, mono, dmin=0, dmax=2, omax=2):
             else:
                 require(O[i] == 0)
                 require(D[i] == 0)
+        for i, o in (pin_onsets or {}).items():
+            require(O[int(i)] == o)
         O = [int(sym.realize(x)) for x in O[:n]]
         D = [int(sym.realize(x)) for x in D[:n]]
         rows = list(zip(O, D, pitches))
@@ -101,7 +103,9 @@ def make_voices(pitches, mono, dmin=0, dmax=2, omax=2):
 
 
 def _inst_voices(tier):
-    out = [{"pitches": [60, 64, 72], "mono": True}, {"pitches": [60, 64, 64], "mono": False}]
+    out = [{"pitches": [60, 64, 72], "mono": True}, {"pitches": [60, 64, 64], "mono": False},
+           # staggered overlapping entries (an internal voice slot may stay unused): two onsets pinned to keep the grid small
+           {"pitches": [73, 62, 63, 81], "mono": True, "dmin": 2, "dmax": 4, "pin_onsets": {"0": 0, "1": 0}}]
     if tier != "quick":
         out += [{"pitches": [60, 64, 72], "mono": False}, {"pitches": [62, 62, 62], "mono": True},
                 {"pitches": [73, 62, 63, 81], "mono": True, "dmin": 2, "dmax": 4}, {"pitches": [73, 62, 63, 81], "mono": False, "dmin": 2, "dmax": 4},
